@@ -51,6 +51,8 @@ def main():
                     res[p] = {"exit": rc, "lines": lines[-4:]}
             finally:
                 sh("git -C /repo checkout -- .")
+                # the cached binary / harness were built from the seeded tree: rebuild them from the restored one
+                sh("python3 -c \"import sys; sys.path.insert(0, '%s'); from fvlib import core; core.step_harness(); core.step_cli()\"" % VERIF)
                 rc, o = sh("git -C /repo status --short")
                 out["repo_clean_after"] = (o.strip() == "")
     out["checks"] = res
